@@ -266,6 +266,24 @@ Theorem same_locality_sound_complete : forall d src ty,
 Proof. exact same_locality_sound_complete_l. Qed.
 Print Assumptions same_locality_sound_complete.
 
+(* ---------- hwloc_bitmap_singlify_per_core ---------- *)
+
+Theorem singlify_per_core_at_most_one : forall which cores s,
+  pairwise_disjoint (map dcs cores) = true ->
+  (forall c i j, In c cores ->
+     mem i (bitmap_singlify_per_core cores s which) = true -> mem i (dcs c) = true ->
+     mem j (bitmap_singlify_per_core cores s which) = true -> mem j (dcs c) = true -> i = j) /\
+  (forall i, (forall c, In c cores -> mem i (dcs c) = false) -> mem i (bitmap_singlify_per_core cores s which) = mem i s).
+Proof. exact singlify_per_core_at_most_one_l. Qed.
+Print Assumptions singlify_per_core_at_most_one.
+
+Example ex_singlify :
+  let cores := map odata [ex_core0; ex_core1] in
+  pairwise_disjoint (map dcs cores) = true /\
+  bitmap_singlify_per_core cores (bs_of_N 15) 1 = bs_of_N 10 /\      (* second PU of Core0, Core1 has no second PU, PU3 is in no core *)
+  bitmap_singlify_per_core cores (bs_of_N 15) 0 = bs_of_N 13.
+Proof. vm_compute. auto. Qed.
+
 (* ---------- statements that are false on the faithful model (findings, replayed on the C code by checks/c09.py) ---------- *)
 
 (* "hwloc_get_common_ancestor_obj cannot return NULL" / is total: refuted.  With
